@@ -87,7 +87,7 @@ def threaded_sample(ctx, n):
 
 
 def run(ctx):
-    ctx.audit(extra_modules=lean_extra())
+    ctx.audit(extra_modules=lean_extra("C03"))
     n = 150 if not ctx.thorough() else 5000
     graphcheck.run_family(ctx, n, ASPECTS, CHECKS, SIGS_A, modes=("async",), corpus=CORPUS_A, flavours=("future", "coro", "tornado"))
     A.sweep(ctx, n, KINDS, ["backpressure"], SIGS_B, corpus=CORPUS_B)
@@ -102,7 +102,7 @@ def run(ctx):
 
 
 def replay(ctx, data):
-    ctx.audit(extra_modules=lean_extra())
+    ctx.audit(extra_modules=lean_extra("C03"))
     case = data["case"]
     if case.get("threaded"):
         threaded_sample(ctx, 12)
